@@ -10,12 +10,13 @@ S=/tmp/seedrun-$id
 rm -rf $S; mkdir -p $S/verifroot
 git -C /repo worktree prune
 git -C /repo worktree add -q --detach $S/repo HEAD || exit 2
-cp -r /verif/mc $S/mc; rm -rf $S/mc/target
+git -C /verif archive HEAD mc | tar -x -C $S   # the committed harness, not a half-edited working tree
 sed -i "s|/repo/typegen|$S/repo/typegen|; s|/repo/description|$S/repo/description|" $S/mc/core/Cargo.toml
 cp /verif/known_findings.json $S/verifroot/
 ( cd $S/repo && git apply /verif/seeded/$id/patch.diff ) || { echo "patch does not apply"; exit 2; }
 export CARGO_TARGET_DIR=/tmp/seedrun-target CARGO_NET_OFFLINE=true VERIF_ROOT=$S/verifroot
-( cd $S/mc && cargo build --release --offline -p mc >$S/build.log 2>&1 ) || { echo "BUILD FAILED"; tail -20 $S/build.log; }
+rm -f /tmp/seedrun-target/release/mc /tmp/seedrun-target/release/mc-plain
+( cd $S/mc && cargo build --release --offline -p mc >$S/build.log 2>&1 && cargo build --release --offline -p mc-plain >>$S/build.log 2>&1 ) || { echo "BUILD FAILED (harness does not build against the changed repo)" | tee /verif/seeded/$id/detection.txt; grep -m5 -A6 "^error" $S/build.log; git -C /repo worktree remove --force $S/repo; git -C /repo worktree prune; rm -rf $S; exit 2; }
 out=/verif/seeded/$id/detection.txt; : > $out
 for c in "$@"; do
   timeout 900 /tmp/seedrun-target/release/mc check $c --tier ${TIER:-quick} > $S/$c.out 2> $S/$c.err; code=$?
